@@ -283,7 +283,7 @@ const (
 // sinks) with untouched neighbour values -> else HTML. The <style> text (raw
 // text, as the tokenizer delivers it) is decided by checkSheet, the decoded
 // style attribute value by checkAttr, with sentinels color:red / width:1px
-// (a-a:b / z-z:d in sorted key order for the direct three-entry map).
+// (a-a:b / z-z:d, in any order, for the direct three-entry map).
 func judgeRendered(j rjob, out []byte) (cl Clause, css string) {
 	toks, err := html5.Tokenize(out)
 	if err != nil {
@@ -316,22 +316,13 @@ func judgeRendered(j rjob, out []byte) (cl Clause, css string) {
 	}
 	css = d.Attrs[1].Val
 	segs := []Seg{sent("color", "red"), {Names: namesFor(j.p)}, sent("width", "1px")}
+	unordered := false
 	if j.sk.name == "attr:mapdirect" {
-		keys := []string{"a-a", j.p, "z-z"}
-		sort.Strings(keys)
-		segs = nil
-		for _, k := range keys {
-			switch k {
-			case j.p:
-				segs = append(segs, Seg{Names: namesFor(j.p)})
-			case "a-a":
-				segs = append(segs, sent("a-a", "b"))
-			default:
-				segs = append(segs, sent("z-z", "d"))
-			}
-		}
+		// three entries of ONE map: the property does not speak about the order
+		// in which a map's declarations appear, so only the multiset is demanded
+		segs, unordered = []Seg{sent("a-a", "b"), {Names: namesFor(j.p)}, sent("z-z", "d")}, true
 	}
-	return cl | checkAttr(css, segs), css
+	return cl | checkAttr(css, segs, unordered), css
 }
 
 // sanitiserClean: the sanitiser's own output for the pair the sink uses is
